@@ -115,6 +115,21 @@ def expand(job):
             for dn, sod_ in ((n_, DAY), (n_ + 1, 0), (n_ + 1, rnd.choice([1, 3600, 86399]))):
                 yy_, a_, b_ = R.date_of(m, rep_, dn)
                 pool.append(tp_rec(rep_, yy_, a_, b_, sod=sod_, zh=x["zh"], zm=x["zm"], xd=2 if (yy_ < 0 or yy_ > 9999) else x.get("xd", 0)))
+        if rnd.random() < 0.15:
+            # one instant written with a decimal hour / decimal minute whose fraction is not exact in binary, and in full
+            # (T12,1 and T12:06:00; T12:30,1 and T12:30:06): the two must compare equal AND hash equally
+            x = rnd.choice(pool)
+            tenths = rnd.choice([1, 2, 3, 4, 6, 7, 8, 9])
+            hh_ = rnd.randint(0, 23)
+            if rnd.random() < 0.5:
+                full = dict(x, prec="hms", hh=hh_, mi=6 * tenths, ss=0)
+                short = dict(x, prec="h", hh=hh_, mi=-1, ss=-1, dec=str(tenths))
+            else:
+                mi_ = rnd.randint(0, 59)
+                full = dict(x, prec="hms", hh=hh_, mi=mi_, ss=6 * tenths)
+                short = dict(x, prec="hm", hh=hh_, mi=mi_, ss=-1, dec=str(tenths))
+            full.pop("dec", None)
+            pool += [full, short]
         rnd.shuffle(pool)
         derive = []
         for _k in range(2):
@@ -150,6 +165,12 @@ def _inst_us(m, p):
     return ((n * DAY + p["sod"] - (p["zh"] * 3600 + p["zm"] * 60)) * 1000000) + p["us"]
 
 
+def _binary_inexact(x):
+    """A decimal-hour / decimal-minute form whose fraction has no exact binary representation (fu = fraction of the last unit
+    in millionths; k / 10^6 is dyadic iff 5^6 divides k)."""
+    return x["prec"] in ("h", "hm") and x["frac"] and x["fu"] % 15625 != 0
+
+
 def _noise_pair(m, a, b):
     """The recorded finding is float noise in re-zoning: it can only flip verdicts between operands that denote the SAME
     instant (to within a microsecond).  A wrong verdict between instants further apart is not that finding."""
@@ -161,6 +182,14 @@ def classify(case, rej, events):
     m = MEANING[case["mode"]]
     if rej["op"] == "Cmp" and _noise_pair(m, ev["a"], ev["b"]):
         return "decimal-hour-form-rezoned-by-non-quarter-hour"
+    # == goes by the (float) second of day, hash by the (hour, minute, second) split of the same float: for a fraction that is
+    # not exact in binary the split leaves 59.99999999999872 s and the like.  Equal instants only, hash clause only.
+    if rej["op"] == "Cmp" and (_binary_inexact(ev["a"]) or _binary_inexact(ev["b"])) \
+            and abs(_inst_us(m, ev["a"]) - _inst_us(m, ev["b"])) <= 1:
+        return "decimal-form-fraction-inexact-in-binary-hashes-differently"
     if rej["op"] == "Pool" and any(_noise_pair(m, a, b) for a in ev["pool"] for b in ev["pool"] if a is not b):
         return "decimal-hour-form-rezoned-by-non-quarter-hour"
+    if rej["op"] == "Pool" and any((_binary_inexact(a) or _binary_inexact(b)) and abs(_inst_us(m, a) - _inst_us(m, b)) <= 1
+                                   for a in ev["pool"] for b in ev["pool"] if a is not b):
+        return "decimal-form-fraction-inexact-in-binary-hashes-differently"
     return None
